@@ -454,6 +454,7 @@ MStep(m, e) ==
       act == IF e.e \in {"Call", "Ret", "Do"} THEN [p |-> e.p, op |-> e.op]
              ELSE IF e.e \in {"Enter", "Return", "ExitCall", "StopCall"} THEN [p |-> e.p, op |-> e.e]
              ELSE IF e.e = "UEvent" THEN [p |-> 0, op |-> "UEvent"]
+             ELSE IF e.e = "GuardLeave" THEN [p |-> e.p, op |-> adv.m.blk[e.p].op]   \* a blocked call carries on
              ELSE r.m.actor
       boundary == e.e \in {"Call", "Ret", "Do", "Disp"}
   IN [m |-> [r.m EXCEPT !.actor = act, !.gone = IF boundary THEN {} ELSE @, !.preds = IF boundary THEN {} ELSE @],
